@@ -949,6 +949,7 @@ def frag_configs(ty, rng, q):
     """(level, multipliers, wanted final part) for one type: every order of up to K multipliers at each level that has a
     reassembly loop, the final part at its boundaries in rotation"""
     out = []
+    salt = rng.below(5)
     for L, (loop, _) in enumerate(ty.loops):
         if loop == "none":
             continue
@@ -966,7 +967,9 @@ def frag_configs(ty, rng, q):
         else:
             seqs = FR.sequences(4, ty.maxsum + 4)
         for i, ms in enumerate(seqs):
-            fin = FR.FINALS[(i + L + rng.below(2)) % len(FR.FINALS)] if i % 7 != 6 else rng.range(2, FR.FRAG - 2)
+            # the final part depends on the SUM of the multipliers (all orders of the same fragments then carry the same value
+            # and share one largest-first reference line); every seventh configuration has a random one of its own
+            fin = FR.FINALS[(sum(ms) + L + salt) % len(FR.FINALS)] if i % 7 != 6 else rng.range(2, FR.FRAG - 2)
             out.append((L, list(ms), fin))
     return out
 
@@ -1060,7 +1063,7 @@ def frag_layer(run, rng, tier, model):
                     put(ty, pat, sol2[0], {L: (bad, sol2[1], FR.form_of(sol2[1]))}, "badmult", level=L)
             cps = FR.cut_points(me["marks"], me["full"])
             if q or ty.heavy or len(ms or []) > 2:
-                k = (1 if ty.heavy else 3) if q else 8
+                k = (1 if ty.heavy else (3 if ty.name in FRAG_FULL else 2)) if q else 8
                 cps = [cps[(ci * k + j * 3) % len(cps)] for j in range(k)] if cps else []
             for c in sorted(set(cps)):
                 put(ty, pat, n, fr, "trunc", cut=c, level=L)
